@@ -60,8 +60,20 @@ def uniqueAdj : List Nat → List Nat
   | [x] => [x]
   | x :: y :: rest => if x == y then uniqueAdj (y :: rest) else x :: uniqueAdj (y :: rest)
 
-def sortAsc (l : List Nat) : List Nat := l.mergeSort (fun a b => a ≤ b)
-def sortDesc (l : List Nat) : List Nat := l.mergeSort (fun a b => b ≤ a)
+/-- insertion into a list sorted by `le` (structural, so that `decide` can evaluate examples) -/
+def insertBy (le : Nat → Nat → Bool) (x : Nat) : List Nat → List Nat
+  | [] => [x]
+  | y :: t => if le x y then x :: y :: t else y :: insertBy le x t
+
+def sortBy (le : Nat → Nat → Bool) : List Nat → List Nat
+  | [] => []
+  | x :: t => insertBy le x (sortBy le t)
+
+/-- `sort.Sort(forwardSort(…))`: ascending by position (the order of equal keys is immaterial:
+    equal positions are equal nodes and `uniqueAdj` keeps one) -/
+def sortAsc (l : List Nat) : List Nat := sortBy (fun a b => a ≤ b) l
+/-- `sort.Sort(backwardSort(…))` -/
+def sortDesc (l : List Nat) : List Nat := sortBy (fun a b => b ≤ a) l
 
 /-- `cleanupForwardAxis`: sort by position ascending, drop duplicates -/
 def cleanupFwd (l : List Nat) : List Nat := uniqueAdj (sortAsc l)
